@@ -150,32 +150,41 @@ func c09Babybear(t *TraceWriter, r *Rng, tier string) {
 			emit("FFTInverse", []any{lg, v}, func() any { d.FFTInverse(a, dec, opts...); return digest(a) })
 		}
 	}
-	// ---- Poseidon2 permutations (widths with AVX-512 kernels: 16 and 24) and the 16x24 batch
+	// ---- Poseidon2 permutations (widths with AVX-512 kernels: 16 and 24) and the 16x24 batch. Round numbers: the defaults of
+	// both small fields (this file also generates the babybear driver), their neighbours, and other splits of the same total
+	// number of rounds (a dispatch that looks at the number of round keys only cannot tell these from the default).
+	p2Rounds := [][2]int{{6, 21}, {8, 13}, {8, 21}, {6, 22}, {6, 20}, {8, 19}, {4, 23}, {8, 14}, {8, 12}, {6, 15}, {10, 11}, {6, 23}, {10, 19}}
 	for _, w := range []int{16, 24} {
-		rf, rp := 6, 21
-		p := babybearp2.NewPermutation(w, rf, rp)
-		for k := 0; k < 12; k++ {
-			in := make([]babybear.Element, w)
-			for i := range in {
-				in[i] = elem((i + k*5) % 29)
+		for ri, rr := range p2Rounds {
+			rf, rp := rr[0], rr[1]
+			p := babybearp2.NewPermutation(w, rf, rp)
+			nin := 12
+			if ri > 2 {
+				nin = 3
 			}
-			emit("Poseidon2.Permutation", []any{w, enc(reflect.ValueOf(in))}, func() any {
-				if err := p.Permutation(in); err != nil {
-					return "err"
+			for k := 0; k < nin; k++ {
+				in := make([]babybear.Element, w)
+				for i := range in {
+					in[i] = elem((i + k*5) % 29)
 				}
-				return enc(reflect.ValueOf(in))
-			})
+				emit("Poseidon2.Permutation", []any{w, rf, rp, enc(reflect.ValueOf(in))}, func() any {
+					if err := p.Permutation(in); err != nil {
+						return "err"
+					}
+					return enc(reflect.ValueOf(in))
+				})
+			}
 		}
 	}
-	{
-		p := babybearp2.NewPermutation(16, 6, 21)
+	for _, rr := range [][2]int{{6, 21}, {8, 13}, {8, 19}, {6, 15}} {
+		p := babybearp2.NewPermutation(16, rr[0], rr[1])
 		var batch [24][16]babybear.Element
 		for i := range batch {
 			for j := range batch[i] {
 				batch[i][j] = elem((i*16 + j) % 31)
 			}
 		}
-		emit("Poseidon2.Permutation16x24", []any{"batch"}, func() any {
+		emit("Poseidon2.Permutation16x24", []any{"batch", rr[0], rr[1]}, func() any {
 			p.Permutation16x24(&batch)
 			return enc(reflect.ValueOf(batch[:]))
 		})
